@@ -12,6 +12,8 @@ CHECKS = {
          "curve lawfulness assumed for the concrete curves; Paillier/ring-Pedersen arrays are compared across parties by direct assertion"),
  "C04": ("Lean theorems: resharing preserves the secret and the public key, the V_0 = PK check is sound for arbitrary old-committee input, chains preserve the key; engine-level ordering is asserted after EVERY delivery of every run (every prefix is a cut point): no old share erased and no new key emitted before all new members acknowledged; tie = whole resharing runs (both curves, proofs on/off, pre-Start, chains, sign-after)",
          "the two-committee engine is not table-modelled in Lean (run-level invariants only); ECDSA resharing verifies the new members' factorisation proofs after the acknowledgements (R1, see DESIGN.md)"),
+ "C05": ("Lean theorems about the round-level blame models (EdDSA keygen round 3, EdDSA signing round 3): exactly the failing peers are named, never the party itself or a peer that sent nothing; an altered value covered by the commitment, the Schnorr proof or the Feldman check is blamed; honest peers pass (from C10/C15/C16), hence a single deviator is named exactly; the rounds return; accepted shares are consistent; plus the no-bad-output facts of C01/C03/C16; tie = fault injection over all six protocols (one alteration per message field found by protobuf reflection, every position, whole-message replay, acknowledgement forgery in resharing) in child processes, with the two modelled rounds re-judged by the model from the delivered fields",
+         "the ECDSA rounds are not modelled as whole round functions (their verifiers are): for them blame and output validity are direct assertions on injected runs; soundness against adaptive provers is cryptographic and not claimed; after a party has reported an error the caller must stop feeding it messages (the library does not latch failures)"),
  "C06": ("Lean theorems that every modelled verifier/decoder returns (never `panic`) for all field values, with pre-fix crash witnesses; model tied to the Go verifiers by verdict agreement on boundary grids over every field of every proof system",
          "function-level entry points (exported verifiers, decoders); protocol-level injection is added by the protocol harness when present; wire codec (protobuf) not modelled"),
  "C07": ("Lean theorems about the round-engine model for every table: fixpoint after each update, local confluence, idempotent duplicates, schedule independence up to permutation and duplication, pre-Start = post-Start delivery, ends exactly once, and no_deadlock for the closed n-party system (all-to-all, disciplined tables; hypotheses decided for the four library tables); tie = the behaviour of every party after each event of whole runs under 9 delivery strategies and exhaustive interleavings (EdDSA n=2) equals the model's trace",
@@ -36,6 +38,12 @@ CHECKS = {
          "SHA-512/256 collision resistance appears only as a conclusion"),
  "C17": ("Lean theorems: decoders accept only canonical on-curve coordinates, flatten/unflatten round-trip, abstract cofactor clearing, torsion table by kernel evaluation; tie = exact ops against btcec/dcrd arithmetic through every door",
          "group laws of the two concrete curves are tested against the Go libraries, not proved"),
+ "C18": ("Lean theorems: exact characterisation of deriveChild (IL and chain code are the halves of the HMAC, child = parent + IL*G, depth/index/version), offset accumulation over paths on every lawful curve, refusals, Lagrange coefficients sum to one so shifted shares are shares of x + delta, child key = ((off + x) mod q)*G; tie = exact derivation ops (incl. the base58 string) against the model's own HMAC-SHA512/SHA-256/RIPEMD-160, btcutil hdkeychain oracle, published BIP32 vector, derive-then-sign runs",
+         "secp256k1 lawfulness assumed; signing under the child key reduces to C01 with the shifted secret (not restated)"),
+ "C19": ("Lean theorems: the byte masking yields a candidate of exactly the requested length with two top bits set for every length >= 6, Pocklington for p = 2q+1 (so an emitted pair with prime q has prime p), sampler contracts (ranges, coprimality, Jacobi -1, non-return for n = 1), pre-parameter algebra h2 = h1^alpha, h1 = h2^beta, 2048-bit products; tie = generator calls at many sizes under a watchdog, scripted-reader sampler ops compared exactly with the model, structure of vendored (and in thorough a fresh full-size) pre-parameters",
+         "ProbablyPrime trusted; promptness of cancellation and goroutine counts are runtime observations (partial)"),
+ "C20": ("Lean theorems: subset re-indexing by key is order-independent and fails exactly when a key is missing, nonces are injective in the nonce sum (and r determines it up to sign), coin segments of consecutive sessions are disjoint; tie = histories of reload/sign/sign-with-offset/aborted-sign operations with a deep snapshot of the stored key data after every operation and pairwise nonce comparison",
+         "JSON codec not modelled; the frame property (no write to caller-reachable cells) is observed by snapshots, not proved (partial)"),
 }
 ALL = ["C%02d" % i for i in range(1, 21)]
 PENDING_REASON = "not yet claimed in this commit: the model, theorems and harness for this property are under construction (see DESIGN.md section 8); no technique switch is intended"
